@@ -262,6 +262,35 @@ TSetVec ==
         /\ nunspec' = nunspec + (IF start.unspec \/ std.unspec THEN 1 ELSE 0)
   /\ l' = l + 1 /\ UNCHANGED << objs, limit >>
 
+\* ---- C13, the global length limit under concurrency ----
+\* "climits": another thread keeps flipping the limit between L1 and L2 (stored as the
+\* pair in `limit` = -(L1 * 65536 + L2) - 2 is avoided: the two values are carried in
+\* the event).  "cparse": the outcome of parse / can_parse of `in` made meanwhile must
+\* be an outcome acceptable under L1 or under L2 (each call behaves as under one of
+\* the values that were set).
+AcceptableUnder(L, std, n) ==
+  IF std.valid /\ Len(Serialize(std.url)) > L THEN {FALSE}
+  ELSE IF n <= L THEN {std.valid}
+  ELSE {std.valid, FALSE}
+
+TCLimits ==
+  /\ IsEvent("climits")
+  /\ limit' = -1
+  /\ l' = l + 1 /\ UNCHANGED << objs, ndiag, nunspec >>
+
+TCParse ==
+  /\ IsEvent("cparse")
+  /\ LET std == ParseObj(Ev["in"], FALSE, InvalidObj)
+         n == Len(Ev["in"])
+         oks == AcceptableUnder(Ev.L1, std, n) \cup AcceptableUnder(Ev.L2, std, n)
+         good == std.unspec \/ (Ev.ok \in oks /\ (Ev.ok /\ Ev.k = "parse" => Ev.href = Serialize(std.url)))
+     IN ndiag' = ndiag + (IF good THEN 0
+                          ELSE IF PrintT("@@DIAG " \o ToJson([l |-> l, who |-> "a", kind |-> "concurrent-limit",
+                                                              props |-> <<"C13">>, ok |-> Ev.ok, k |-> Ev.k,
+                                                              L1 |-> Ev.L1, L2 |-> Ev.L2]))
+                               THEN 1 ELSE 1)
+  /\ l' = l + 1 /\ UNCHANGED << objs, limit, nunspec >>
+
 \* the recorder's crash handler wrote this line: the call did not return
 TCrashed ==
   /\ IsEvent("crashed")
@@ -269,7 +298,7 @@ TCrashed ==
   /\ l' = l + 1 /\ UNCHANGED << objs, limit, nunspec >>
 
 Next == TReset \/ TLimit \/ TParse \/ TSet \/ TCopy \/ TObserve \/ TReparse \/ TCanParse
-        \/ TVec \/ TSetVec \/ TCrashed
+        \/ TVec \/ TSetVec \/ TCrashed \/ TCLimits \/ TCParse
 
 Spec == Init /\ [][Next]_vars
 
